@@ -384,6 +384,30 @@ func init() {
 				c.Programs++
 			}
 		}
+		// --capitalization lists whose entries are EQUAL IGNORING CASE (ID / Id, URL / Url / url), in both orders: the first
+		// listed spelling is used, in every generation
+		for ci, caps := range [][]string{{"ID", "Id"}, {"Id", "ID"}, {"URL", "Url", "url"}, {"url", "URL"}, {"ID", "Id", "URL", "Url"}} {
+			sch := core.MustJSON(sgen.M{"$id": "urn:c12", "type": "object", "properties": sgen.M{"id": sgen.M{"type": "string"}, "parent_id": sgen.M{"type": "integer"},
+				"home-url": sgen.M{"type": "string"}, "owner": sgen.M{"type": "object", "properties": sgen.M{"user-id": sgen.M{"type": "string"}, "url": sgen.M{"type": "string"}}}}})
+			cfg := core.DefaultCfg()
+			cfg.RootType = "Root"
+			cfg.Caps = caps
+			dir := filepath.Join(tmp, fmt.Sprintf("caps%d", ci))
+			ref := genSrc(dir, "schema.json", sch, cfg, "urn:c12")
+			for rep := 0; rep < 60; rep++ {
+				got := genSrc(filepath.Join(dir, fmt.Sprint(rep)), "schema.json", sch, cfg, "urn:c12")
+				c.Eval(fmt.Sprintf("case-equal-capitalizations|%d|%v", ci, got == ref))
+				if got != ref {
+					fails++
+					if fails <= 3 {
+						c.Fail("oracle", fmt.Sprintf("capitalizations %v: repetition %d of the same generation gives other bytes", caps, rep),
+							M{"kind": "relational", "variant": "repeat", "cfg": cfg, "schema": string(sch), "reference_output": clip(ref, 1500), "variant_output": clip(got, 1500)}, false)
+					}
+					break
+				}
+			}
+			c.Programs++
+		}
 		// an extension-less reference with SEVERAL candidate files of different content: the first listed resolve
 		// extension wins, every time (30 generations per order of the extension list)
 		for oi, exts := range [][]string{{".json", ".yaml"}, {".yaml", ".json"}, {".yml", ".json", ".yaml"}} {
